@@ -57,7 +57,7 @@ type Thread struct {
 	ID      int
 	Name    string
 	Parent  int
-	wake    chan struct{}
+	ho      threadHandoff
 	pending pendingOp
 	done    bool
 	fn      func()
@@ -65,6 +65,11 @@ type Thread struct {
 	Stack   string
 	// per-thread scratch for drivers (e.g. "current logical call is on a bad connection")
 	Local map[string]interface{}
+}
+
+type objEntry struct {
+	p unsafe.Pointer
+	o *objState
 }
 
 type objState struct {
@@ -100,8 +105,8 @@ type Exec struct {
 	X        *mc.Exec
 	Threads  []*Thread
 	cur      *Thread
-	arrived  chan struct{}
-	objs     map[unsafe.Pointer]*objState
+	ho       execHandoff
+	objs     []objEntry
 	Log      []Step
 	Deadlock bool
 	Overrun  bool
@@ -110,7 +115,7 @@ type Exec struct {
 	Preemptions int
 	BlockedDesc string
 	// non-vacuity observations
-	SawBlocked     map[int]bool // some thread was disabled with this pending op kind
+	SawBlocked     [32]bool // some thread was disabled with this pending op kind
 	SpawnedBlocked bool         // a goroutine spawned by the code under test had to wait on a channel
 	// ObjLabel lets the harness name objects (by pointer) for readable logs.
 	KeepLog bool
@@ -121,23 +126,29 @@ type abortSentinel struct{}
 var active *Exec
 
 // Active returns the running execution (nil outside of Run).
+//go:norace
 func Active() *Exec { return active }
 
 // Cur returns the thread that holds the turn.
+//go:norace
 func (e *Exec) Cur() *Thread { return e.cur }
 
+//go:norace
 func (e *Exec) obj(p unsafe.Pointer) *objState {
 	if p == nil {
 		return nil
 	}
-	o := e.objs[p]
-	if o == nil {
-		o = &objState{id: len(e.objs) + 1}
-		e.objs[p] = o
+	for i := range e.objs {
+		if e.objs[i].p == p {
+			return e.objs[i].o
+		}
 	}
+	o := &objState{id: len(e.objs) + 1}
+	e.objs = append(e.objs, objEntry{p, o})
 	return o
 }
 
+//go:norace
 func (e *Exec) enabled(t *Thread) bool {
 	if t.done {
 		return false
@@ -161,6 +172,7 @@ func (e *Exec) enabled(t *Thread) bool {
 	return true
 }
 
+//go:norace
 func (e *Exec) grant(t *Thread) {
 	p := t.pending
 	o := e.obj(p.obj)
@@ -177,6 +189,7 @@ func (e *Exec) grant(t *Thread) {
 }
 
 // release-type operations update the model without yielding.
+//go:norace
 func (e *Exec) release(kind int, obj unsafe.Pointer, arg int) bool {
 	o := e.obj(obj)
 	switch kind {
@@ -203,6 +216,7 @@ func (e *Exec) release(kind int, obj unsafe.Pointer, arg int) bool {
 }
 
 // hook is installed into verifshim.Hook.
+//go:norace
 func hook(kind int, obj unsafe.Pointer, arg int) {
 	e := active
 	if e == nil || e.aborting || e.cur == nil {
@@ -218,6 +232,7 @@ func hook(kind int, obj unsafe.Pointer, arg int) {
 }
 
 // hookGo is installed into verifshim.HookGo.
+//go:norace
 func hookGo(f func()) {
 	e := active
 	if e == nil || e.aborting || e.cur == nil {
@@ -227,11 +242,13 @@ func hookGo(f func()) {
 	e.spawn(f, fmt.Sprintf("%s/go%d", e.cur.Name, len(e.Threads)), e.cur.ID)
 }
 
+//go:norace
 func (e *Exec) spawn(f func(), name string, parent int) *Thread {
-	t := &Thread{ID: len(e.Threads), Name: name, Parent: parent, wake: make(chan struct{}), fn: f, pending: pendingOp{kind: OpStart}, Local: map[string]interface{}{}}
+	t := &Thread{ID: len(e.Threads), Name: name, Parent: parent, fn: f, pending: pendingOp{kind: OpStart}, Local: map[string]interface{}{}}
+	e.initThread(t)
 	e.Threads = append(e.Threads, t)
 	go func() {
-		<-t.wake
+		e.waitTurn(t)
 		defer func() {
 			if r := recover(); r != nil {
 				if _, ok := r.(abortSentinel); !ok {
@@ -240,7 +257,7 @@ func (e *Exec) spawn(f func(), name string, parent int) *Thread {
 				}
 			}
 			t.done = true
-			e.arrived <- struct{}{}
+			e.arrive(t)
 		}()
 		if e.aborting {
 			return
@@ -250,17 +267,19 @@ func (e *Exec) spawn(f func(), name string, parent int) *Thread {
 	return t
 }
 
+//go:norace
 func (e *Exec) yield(p pendingOp) {
 	t := e.cur
 	t.pending = p
-	e.arrived <- struct{}{}
-	<-t.wake
+	e.arrive(t)
+	e.waitTurn(t)
 	if e.aborting {
 		panic(abortSentinel{})
 	}
 }
 
 // Point is a generic, always enabled scheduling point (fake driver, harness).
+//go:norace
 func Point(label string) {
 	e := active
 	if e == nil || e.aborting || e.cur == nil {
@@ -270,6 +289,7 @@ func Point(label string) {
 }
 
 // Choose asks the explorer for an environment answer (fault choice); 0 outside of Run.
+//go:norace
 func Choose(n int, label string, cost int) int {
 	e := active
 	if e == nil || e.aborting {
@@ -279,6 +299,7 @@ func Choose(n int, label string, cost int) int {
 }
 
 // CurThread returns the running managed thread or nil.
+//go:norace
 func CurThread() *Thread {
 	if e := active; e != nil {
 		return e.cur
@@ -288,13 +309,9 @@ func CurThread() *Thread {
 
 const watchdog = 60 * time.Second
 
-func (e *Exec) waitArrived() {
-	select {
-	case <-e.arrived:
-	case <-time.After(watchdog):
-		fmt.Fprintf(os.Stderr, "HARNESS-ERROR: a managed thread blocked outside the scheduler for %v (uninstrumented blocking operation?)\nlast steps: %v\n", watchdog, e.tail(20))
-		os.Exit(3)
-	}
+func (e *Exec) stuck() {
+	fmt.Fprintf(os.Stderr, "HARNESS-ERROR: a managed thread blocked outside the scheduler for %v (uninstrumented blocking operation?)\nlast steps: %v\n", watchdog, e.tail(20))
+	os.Exit(3)
 }
 
 func (e *Exec) tail(n int) []string {
@@ -316,11 +333,12 @@ func Run(x *mc.Exec, horizon int, keepLog bool, bodies ...func()) *Exec {
 
 // RunAfter is Run for a later phase of the same execution: the model of the
 // synchronisation objects (closed channels, held locks) is carried over.
+//go:norace
 func RunAfter(prev *Exec, x *mc.Exec, horizon int, keepLog bool, bodies ...func()) *Exec {
 	if active != nil {
 		panic("sched: nested Run")
 	}
-	e := &Exec{X: x, arrived: make(chan struct{}), objs: map[unsafe.Pointer]*objState{}, Horizon: horizon, KeepLog: keepLog, SawBlocked: map[int]bool{}}
+	e := &Exec{X: x, ho: newExecHandoff(), Horizon: horizon, KeepLog: keepLog}
 	if prev != nil {
 		e.objs = prev.objs
 	}
@@ -388,7 +406,7 @@ func RunAfter(prev *Exec, x *mc.Exec, horizon int, keepLog bool, bodies ...func(
 			e.Log = append(e.Log, Step{Thread: t.ID, Op: t.pending.kind, Obj: id, Label: t.pending.label})
 		}
 		e.cur = t
-		t.wake <- struct{}{}
+		e.giveTurn(t)
 		e.waitArrived()
 	}
 	e.cur = nil
@@ -397,12 +415,13 @@ func RunAfter(prev *Exec, x *mc.Exec, horizon int, keepLog bool, bodies ...func(
 
 // abort unwinds every parked thread (panic with a sentinel recovered at the
 // thread root; deferred unlocks of the code under test run with hooks off).
+//go:norace
 func (e *Exec) abort() {
 	e.aborting = true
 	for _, t := range e.Threads {
 		if !t.done {
 			e.cur = t
-			t.wake <- struct{}{}
+			e.giveTurn(t)
 			e.waitArrived()
 		}
 	}
@@ -410,6 +429,7 @@ func (e *Exec) abort() {
 }
 
 // Blocked describes the blocked threads of a deadlocked execution.
+//go:norace
 func (e *Exec) Blocked() string {
 	var out []string
 	for _, t := range e.Threads {
